@@ -50,6 +50,10 @@ def impl(line):
         return impl_iso(args)
     if op == 'after':
         return impl_after(args)
+    if op == 'eq3':
+        parts = og.split_semis(args)
+        a, b, c = (og.build(og.p_any(p)[0]) for p in parts)
+        return (tf(a == b) + tf(b == c) + tf(a == c) + ':' + tf(hash(a) == hash(b)) + tf(hash(b) == hash(c)) + tf(hash(a) == hash(c)))
     a, b = _pair(args)
     if op == 'eq':
         return tf(a == b)
@@ -207,6 +211,14 @@ def spec(line):
         seq = '[' + ';'.join(str(i) for i in range(_nseq_eff(kind, int(nseq)))) + ']' if kind in og.HAS_SEQ else '_'
         return f'dt={og.dttok(og.inst(og.p_dt(dt)))};props={props};holes={holes};seq={seq}'
     parts = og.split_semis(args)
+    if op == 'eq3':
+        try:
+            aux = og.Aux()
+            a, b, c = (og.p_any(p, aux)[0] for p in parts)
+        except Exception:  # noqa
+            return None
+        v = [og.same_any(a, b, aux), og.same_any(b, c, aux), og.same_any(a, c, aux)]
+        return ''.join(x or '?' for x in v)
     try:
         aux = og.Aux()
         if op == 'after':
@@ -246,6 +258,19 @@ def _nseq_eff(kind, nseq):
     return nseq
 
 
+def eq3_ok(answer, want):
+    """the three verdicts where the property fixes them; == must be transitive and symmetric-consistent; equal => same hash"""
+    try:
+        e, h = answer.split(':')
+    except ValueError:
+        return False
+    if any(w != '?' and w != x for x, w in zip(e, want)):
+        return False
+    if e[0] == 'T' and e[1] == 'T' and e[2] != 'T':
+        return False
+    return all(not (x == 'T' and y != 'T') for x, y in zip(e, h))
+
+
 def iso_spec_ok(answer, want):
     """eq=T, the property dict and the hole list are not shared (I8), the untouched side is unchanged"""
     try:
@@ -261,6 +286,8 @@ def impl_for(line):
 
 
 def spec_for(line):
+    if line.startswith('ob.eq3'):
+        return None     # judged by eq3_ok (a predicate on the answer)
     if line.startswith('ob.iso'):
         return None     # the demand is a predicate on the answer (iso_spec_ok), not a string
     if line.startswith('ob.usable'):
@@ -435,6 +462,117 @@ def gen_fields():
         for (_n1, v1), (_n2, v2) in itertools.combinations(variants, 2):
             lines += pair_lines(v1, v2, ['eq', 'hasheq'])
     return lines
+
+
+def _ulp_variants(x):
+    """values next to a float: neighbouring doubles, last-bit arithmetic noise, 1e-9 relative"""
+    import math
+    out = [math.nextafter(x, math.inf), math.nextafter(x, -math.inf)]
+    if x:
+        out += [x * (1 + 1e-9), x * (1 - 1e-9), x * (1 + 2.0 ** -52), (x / 3.0) * 3.0 if (x / 3.0) * 3.0 != x else x + abs(x) * 2.0 ** -51]
+    return [v for v in dict.fromkeys(out) if v != x]
+
+
+def _coord_fine(c):
+    for i in (0, 1, 2):
+        if c[i] is None:
+            continue
+        for v in _ulp_variants(c[i]):
+            yield ('lon', 'lat', 'z')[i], c[:i] + (v,) + c[i + 1:]
+
+
+def fine_descs(d):
+    """every numeric defining field of the shape moved by the smallest amounts: (field tag, variant description)"""
+    k = d[0]
+    if k in ('MP', 'ML', 'MG'):
+        for tag, m in fine_descs(d[2][0]):
+            yield 'member.' + tag, (k, d[1], [m] + list(d[2][1:]))
+        yield from _dt_fine(d, lambda dt: (k, dt, d[2]), d[1])
+        return
+    if k == 'T':
+        for tag, c in _coord_fine(d[2]):
+            yield tag, ('T', d[1], c)
+    elif k == 'L':
+        for i in (0, len(d[2]) - 1):
+            for tag, c in _coord_fine(d[2][i]):
+                vs = list(d[2])
+                vs[i] = c
+                yield f'v{i}.{tag}', ('L', d[1], vs)
+    elif k == 'P':
+        o = list(d[3])
+        i = 1
+        for tag, c in _coord_fine(o[i]):
+            yield f'v{i}.{tag}', ('P', d[1], d[2], o[:i] + [c] + o[i + 1:], d[4])
+    elif k == 'B':
+        for j in (2, 3):
+            for tag, c in _coord_fine(d[j]):
+                yield ('nw.', 'se.')[j - 2] + tag, d[:j] + (c,) + d[j + 1:]
+    else:   # C, E, R: centre, then every scalar field
+        for tag, c in _coord_fine(d[2]):
+            yield 'center.' + tag, d[:2] + (c,) + d[3:]
+        last = {'C': 3, 'E': 5, 'R': 6}[k]
+        for j in range(3, last + 1):
+            for v in _ulp_variants(d[j]):
+                yield f'f{j}', d[:j] + (v,) + d[j + 1:]
+    # the first hole: its geometry and (for the kinds that look at it) its time
+    hs = og.holes_of(d)
+    if hs:
+        for tag, h in fine_descs(hs[0]):
+            if k == 'P' and (tag.startswith('dt') or hs[0][0] not in ('P', 'B')):
+                continue          # a polygon compares the rings its holes cut out, not the hole objects
+            yield 'hole.' + tag, og.with_holes(d, [h] + hs[1:])
+    yield from _dt_fine(d, lambda dt: og.with_dt(d, dt), _top_dt(d))
+
+
+def _dt_fine(d, mk, dt):
+    if dt is None:
+        return
+    s0, e0 = og.ival(dt[0]), og.ival(dt[1])
+    for tag, v in (('dt.start-1us', (s0 - 1, e0)), ('dt.start+1us', (s0 + 1, e0)), ('dt.end+1us', (s0, e0 + 1)),
+                   ('dt.end-1us', (s0, e0 - 1))):
+        if v[0] <= v[1]:
+            yield tag, mk(og.respell(v, len(tag)))
+
+
+def gen_fine():
+    """'differ in a defining field => unequal' at the finest scale, for every numeric field of every kind; equal shapes
+    alongside (the same variant built twice); transitivity triples of near values"""
+    lines, triples = [], []
+    z5 = lambda c: (c[0], c[1], 5.0, c[3])  # noqa: E731
+    extra = [('C', DTS[2], C(4, 4, 2.5), (0.1 + 0.2) * 1000, []), ('C', None, C(0.1 + 0.2, 4), 0.3 * 1000, [HC]),
+             ('B', DTS[2], z5(C(0, 8)), C(8, 0), [HC]), ('E', None, C(4, 4), 600000.0, 400000.0, 0.0, [HC]),
+             ('R', None, C(4, 4, 0.0), 20000.0, 600000.0, 30.0, 170.0, [HC]),
+             ('P', 0, DTS[2], [z5(c) for c in BIG] + [z5(BIG[0])], [HC, H1]), ('T', DTS[1], C(0.1 + 0.2, 0.3, 0.1 * 3)),
+             ('MG', DTS[2], [('C', None, C(4, 4), 500000.0, []), ('B', None, C(0, 8), C(8, 0), [])])]
+    for base in [b for _k, b, _v in base_shapes()] + extra:
+        seen = 0
+        for tag, v in fine_descs(base):
+            seen += 1
+            lines += pair_lines(base, v, ['eq', 'setlen', 'dictget']) + pair_lines(v, base, ['eq', 'hasheq'])
+            if seen % 4 == 0:
+                lines += pair_lines(v, v, ['eq', 'hasheq'])
+        # chains a ~ b ~ c: neighbouring doubles and steps of 0.7e-9 relative (a and c are further apart than a and b)
+        vs = list(fine_descs(base))
+        by_tag = {}
+        for tag, v in vs:
+            by_tag.setdefault(tag, []).append(v)
+        for tag, group in by_tag.items():
+            if len(group) >= 2:
+                triples.append((group[1], base, group[0]))           # below, at, above
+            if len(group) >= 3:
+                triples.append((base, group[2], group[0]))
+    import math
+    for r in ((0.1 + 0.2) * 1000, 500000.0, 1234.5):
+        chain = [r, r * (1 + 0.7e-9), r * (1 + 1.4e-9), math.nextafter(r, math.inf), math.nextafter(math.nextafter(r, math.inf), math.inf)]
+        for a, b, c in ((chain[0], chain[1], chain[2]), (chain[0], chain[3], chain[4]), (chain[1], chain[0], chain[3])):
+            triples.append(tuple(('C', DTS[2], C(4, 4), x, [H1]) for x in (a, b, c)))
+            triples.append(tuple(('B', None, C(0, 8), C(8, 0), [('C', None, C(5, 2), x / 10, [])]) for x in (a, b, c)))
+            triples.append(tuple(('E', None, C(4, 4), 2 * x, x, 30.0, []) for x in (a, b, c)))
+            triples.append(tuple(('R', None, C(4, 4), x / 100, x, 0.0, 360.0, []) for x in (a, b, c)))
+            triples.append(tuple(('MG', None, [('C', None, C(4, 4), x, [])]) for x in (a, b, c)))
+            triples.append(tuple(('T', None, C(x / 1e5, 1.5)) for x in (a, b, c)))
+    t3 = [f'ob.eq3 {toks(a)} ; {toks(b)} ; {toks(c)}' for a, b, c in triples]
+    return lines, t3
 
 
 def gen_kinds():
@@ -838,6 +976,10 @@ def check(run):
         return [f'{op}:{a}', 'kind:' + (kinds[0] if kinds else '?')]
 
     run.run_cases('fields-one-differs', gen_fields(), impl, spec, tag=tag_pairs)
+    fine, triples = gen_fine()
+    run.run_cases('fields-finest-scale', fine, impl, spec, tag=tag_pairs)
+    run.run_cases('transitivity-triples', triples, impl, spec, spec_compare=eq3_ok,
+                  tag=lambda ln, a: ['eq3:' + a])
     run.run_cases('kinds-cross', gen_kinds(), impl, spec, tag=tag_pairs)
     run.run_cases('outline-rewrites', gen_rewrites(run), impl, spec, tag=tag_pairs)
     run.run_cases('hole-rewrites', gen_holes(run), impl, spec, tag=tag_pairs)
@@ -873,7 +1015,9 @@ def check(run):
              '12 outlines (<= 6 vertices) and of 3 hole rings, hole lists of mixed kinds, all member permutations (<= 4) of '
              'the three multi kinds incl. rewritten polygon members and cross-kind pairs, a coordinate grid with Z/M; x the '
              'observations ==, !=, hash equality, len({a,b}), dict look-up.  Seeded random pairs (rewrite / one-field '
-             'perturbation / independent).  Every time bound also written naive / in other UTC offsets / with different tzinfo objects on '
+             'perturbation / independent).  Every numeric defining field of every kind (every ordinate incl. Z, radii, axes, rotation, angles, '
+             'hole fields, time bounds) moved by one ulp / last-bit arithmetic noise / 1e-9 relative / 1 us must give unequal shapes; '
+             'transitivity triples of near values.  Every time bound also written naive / in other UTC offsets / with different tzinfo objects on '
              'its two ends incl. zones with a jump inside the interval (one value; through copy, pickle, deepcopy, in-place setters).  Observe-mutate-observe: '
              'every kind x {hashed, in a set, hashed then cloned} x every in-place time mutator (also on a member) x {then cloned}, compared '
              'with a freshly built shape.  copy()/pickle x every kind x every mutator alone and random mutator sequences '
